@@ -165,7 +165,7 @@ def r3(ctx):
     rep = Report("C14.R3", "never under-counting: inner set always preceded by the addition; subtractions only of sizes of removed records (or the empty-store reset)", floor=4)
     f = ctx.facts
     methods = [b for b in f.bodies.values() if b.impl_self == RP and b.kind == "assoc_fn"]
-    rep.check(len(methods) >= 14, "policy-methods", "%d RandomPolicy methods" % len(methods), "only %d RandomPolicy methods found (>= 14 confirmed)" % len(methods))
+    rep.check(len(methods) >= 12, "policy-methods", "%d RandomPolicy methods" % len(methods), "only %d RandomPolicy methods found (14 confirmed; 12 are required by the Cache traits)" % len(methods))
     for b in methods:
         if b.impl_trait is None and b.name != "incr_mem_usage":
             continue  # inherent helpers (decr_mem_usage, ...) are inlined into the trait methods that use them
